@@ -12,5 +12,6 @@ CONSTANTS
   MaxDetach = 1
   MaxEnv = 6
   NPS = 7
+  MaxDbf = 0
   MaxFail = 0
 CHECK_DEADLOCK FALSE
